@@ -29,20 +29,46 @@ impl Server {
             let (stream, _) = self.listener.accept()?;
             let mut buf = Vec::new();
             match frame::read_frame_blocking(stream.endpoint(), &mut buf, None) {
-                Some(Frame::Data(body)) => return Ok(Request { stream, body: Cursor::new(body) }),
+                Some(Frame::Data(body)) => return Ok(Request { stream, body: BodyReader { data: Cursor::new(body), reads: 0 } }),
                 _ => continue, // client went away before sending a request
             }
         }
     }
 }
 
+/// The body as tiny_http hands it out: a body of at most 1 KiB is pre-loaded and comes back in one `read`;
+/// a longer one is read through the connection's 1 KiB buffer, so a single `read` returns what is left of
+/// that buffer after the headers (short reads are what `Read` allows; `read_to_string` loops over them).
+pub struct BodyReader {
+    data: Cursor<Vec<u8>>,
+    reads: u32,
+}
+impl io::Read for BodyReader {
+    fn read(&mut self, buf: &mut [u8]) -> io::Result<usize> {
+        let total = self.data.get_ref().len();
+        let cap = if total <= 1024 {
+            buf.len()
+        } else if self.reads == 0 {
+            buf.len().min(880)
+        } else {
+            buf.len().min(1024)
+        };
+        self.reads += 1;
+        io::Read::read(&mut self.data, &mut buf[..cap])
+    }
+}
+
 pub struct Request {
     stream: TcpStream,
-    body: Cursor<Vec<u8>>,
+    body: BodyReader,
 }
 impl Request {
     pub fn as_reader(&mut self) -> &mut dyn io::Read {
         &mut self.body
+    }
+    /// Content-Length of the request
+    pub fn body_length(&self) -> Option<usize> {
+        Some(self.body.data.get_ref().len())
     }
     pub fn respond(self, r: Response) -> io::Result<()> {
         frame::write_frame(self.stream.endpoint(), &r.data)
